@@ -210,6 +210,35 @@ Proof.
   destruct E as [t [t' [_ [_ ->]]]]. cbn. unfold all_providers in IH. now rewrite IH.
 Qed.
 
+(* acyclicity only looks at bodies and provider names *)
+Definition same_shape (p p' : procdef) : Prop := pr_body p' = pr_body p /\ pr_providers p' = pr_providers p.
+Lemma elab_proc_shape D p p' : elab_proc D p p' -> same_shape p p'.
+Proof. intros [t [t' [_ [_ ->]]]]. split; reflexivity. Qed.
+
+Lemma provider_index_shape ps ps' x : Forall2 same_shape ps ps' -> Typing.provider_index ps' x = Typing.provider_index ps x.
+Proof.
+  unfold Typing.provider_index. generalize 0 (@None nat).
+  intros n o F. revert n o. induction F as [|p p' r r' [_ Ep] _ IH]; intros n o; auto.
+  rewrite Ep. apply IH.
+Qed.
+Lemma deps_shape ps ps' : Forall2 same_shape ps ps' -> map (proc_deps ps') ps' = map (proc_deps ps) ps.
+Proof.
+  intros F. assert (G : forall l l', Forall2 same_shape l l' -> map (proc_deps ps') l' = map (proc_deps ps) l).
+  { induction 1 as [|p p' r r' [Eb Ep] _ IH]; cbn; auto. rewrite IH. f_equal.
+    unfold proc_deps, Typing.proc_uses. rewrite Eb, Ep.
+    apply flat_map_ext. intros fn. now rewrite (provider_index_shape _ _ _ F). }
+  now apply G.
+Qed.
+Lemma deps_acyclic_shape ps ps' : Forall2 same_shape ps ps' -> deps_acyclic ps' = deps_acyclic ps.
+Proof.
+  intros F. unfold deps_acyclic. rewrite (deps_shape _ _ F).
+  assert (L : length ps' = length ps) by (clear - F; induction F; cbn; auto). now rewrite L.
+Qed.
+Lemma elab_procs_shape D ps ps' : Forall2 (elab_proc D) ps ps' -> Forall2 same_shape ps ps'.
+Proof. induction 1; constructor; eauto using elab_proc_shape. Qed.
+Lemma procs_acyclic_eq ps : procs_acyclic ps = deps_acyclic ps.
+Proof. reflexivity. Qed.
+
 Lemma existsb_false_forall {A} (f : A -> bool) l : existsb f l = false <-> forall x, In x l -> f x = false.
 Proof.
   split.
@@ -227,7 +256,8 @@ Record procs_prelim_ok (D : tenv) (ps : list procdef) (assumed : list name) : Pr
   pp_disjoint : forall x, In x (all_providers ps) -> ~ In x (map ident assumed);
   pp_uses_once : NoDup (uses_of ps);
   pp_uses_defined : forall x, In x (uses_of ps) -> In x (map ident assumed) \/ In x (all_providers ps);
-  pp_assumed_used : forall x, In x (map ident assumed) -> In x (uses_of ps)
+  pp_assumed_used : forall x, In x (map ident assumed) -> In x (uses_of ps);
+  pp_acyclic : deps_acyclic ps = true
 }.
 
 Lemma prelim_procs_sound D ps0 as0 ps assumed : prelim_procs D ps0 as0 = TOk (ps, assumed) ->
@@ -239,7 +269,8 @@ Proof.
   step H. pose proof (types_of_wf _ _ G1 (elab_names_typed _ _ _ EN)) as TA.
   step H. apply providers_unique_spec in G2. destruct G2 as [NP _].
   step H. apply negb_true_iff in G2. rewrite existsb_false_forall in G2.
-  step H. destruct a as [ps1 rem]. step H. apply negb_true_iff in G3. inversion H; subst. clear H.
+  step H. destruct a as [ps1 rem]. step H. apply negb_true_iff in G3. step H. rename G4 into AC.
+  inversion H; subst. clear H.
   destruct (prelim_procs_types_sound _ _ _ _ _ _ E0) as [F2 [PS [P' [U ND]]]].
   pose proof (elab_names_idents _ _ _ EN) as EI.
   pose proof (elab_procs_providers _ _ _ F2) as EP.
@@ -262,6 +293,7 @@ Proof.
   - intros x Hx. destruct (in_dec string_dec x (uses_of ps)) as [I|I]; auto. exfalso.
     destruct (UC _ I) as [EA _]. rewrite (alookup_const_in _ _ Hx) in EA.
     apply alookup_In in EA. rewrite existsb_false_forall in G3. apply G3 in EA. discriminate.
+  - rewrite (deps_acyclic_shape _ _ (elab_procs_shape _ _ _ F2)). rewrite <- procs_acyclic_eq. exact AC.
 Qed.
 
 (* ---------------------------------------------------------------- the context of a process *)
